@@ -7,6 +7,7 @@ import InfluxQL.Lemmas.StmtExprPieces
 import InfluxQL.Lemmas.SelectPieces
 import InfluxQL.Lemmas.SelectClauses
 import InfluxQL.Lemmas.SelectCQ
+import InfluxQL.Lemmas.SelectRegexFamilies
 import InfluxQL.Lemmas.IntLit
 import InfluxQL.Lemmas.RegexRoundTrip
 import InfluxQL.Lemmas.ShowPieces
@@ -4747,5 +4748,147 @@ end
 example : (match (runHandler 200 .parseShowTagValuesStatement).run (PState.init exTagValuesTextW [] []) with
     | .ok _ => true
     | .error _ => false) = true := by decide +kernel
+
+/-! ### SELECT with regex sources and regex GROUP BY dimensions (`Lemmas/SelectRegexSrc.lean`, `SelectRegexBody.lean`, `SelectRegexSelect.lean`, `SelectRegexFamilies.lean`) -/
+
+/-- The class with regex sources and dimensions contains the class without them, at every depth. -/
+theorem selOKB_selOKR (tbl : List (Char × Char)) : ∀ (n : Nat) (st : SelectStmt), selOKB tbl n st = true → selOKR tbl n st = true
+  | 0, _, h => by simp [selOKB] at h
+  | n + 1, st, h => by
+    unfold selOKB at h
+    unfold selOKR
+    cases hf : st.fields with
+    | nil => rw [hf] at h; simp at h
+    | cons f fs =>
+      rw [hf] at h
+      simp only [Bool.and_eq_true, decide_eq_true_eq] at h ⊢
+      obtain ⟨⟨⟨⟨⟨⟨⟨⟨⟨hb, ht⟩, hne⟩, hsrc⟩, hraw⟩, hta⟩, hot⟩, hsn⟩, hen⟩, hdd⟩ := h
+      refine ⟨⟨⟨⟨⟨⟨⟨⟨⟨hb.toR, ht⟩, hne⟩, ?_⟩, hraw⟩, hta⟩, hot⟩, hsn⟩, hen⟩, hdd⟩
+      rw [List.all_eq_true] at hsrc ⊢
+      intro x hx
+      have hx' := hsrc x hx
+      cases x with
+      | measurement m =>
+        simp only [srcOKB] at hx'
+        simp only [srcOKRB, measOKRB, hx', Bool.true_or]
+      | subquery st' => exact selOKB_selOKR tbl n st' hx'
+
+/-- A statement of the class `selOKR tbl n` prints as the keyword `SELECT` and its tail. -/
+theorem selectRegex_print (tbl : List (Char × Char)) (n : Nat) (st : SelectStmt) (h : selOKR tbl n st = true) :
+    (Statement.select st).print = tx "SELECT" ++ selectTail st := by
+  obtain ⟨y, hy⟩ := selOKR_print tbl n st h
+  show st.print = _
+  rw [selectTail_of_print hy]
+  exact hy
+
+/-- A regex source prints as the optional `db.` / `rp.` prefix (as for a named measurement) and the regex literal. -/
+theorem regexSource_print (db rp src : Str) :
+    (Source.measurement (reM db rp src)).print = rePrefix db rp ++ '/' :: (escapeSlashes src ++ ['/']) :=
+  reM_print db rp src
+
+/-- **Print → parse, one regex source.** `parseSource` (with or without subqueries allowed) on a blank and
+`Measurement.String()` of a regex measurement `/re/`, `rp./re/`, `db../re/`, `db.rp./re/`, followed by *any* text,
+returns exactly the measurement — database and retention policy in their slots, the regex source unescaped — and
+stands directly behind the closing slash with nothing pushed back. (`FROM /re/` is read by the regex probe at the
+head of `parseSource`; after `db.rp.` the loop of `parseSegmentedIdents` stops at the slash by a rune look-ahead, and
+the second probe reads the literal.) The regex source satisfies the conditions of `regex_print_scan`
+(`RT.regexB`: no newline / NUL / CR, not ending in a backslash, not starting with `*`). -/
+theorem regexSource_print_parse (sub : Option (P SelectStmt)) (s : PState) (db rp src rest : Str)
+    (hok : ReSrcOK db rp src) (hs : s.Before (' ' :: ((Source.measurement (reM db rp src)).print ++ rest))) :
+    ∃ s', (parseSourceWith sub).run s = .ok (.measurement (reM db rp src), s') ∧ s'.Before rest := by
+  obtain ⟨s', h, hb, _⟩ := parseSource_regex sub s db rp src rest hok hs
+  exact ⟨s', h, hb⟩
+
+/-- **Print → parse, SELECT with regex sources and regex dimensions.** As `selectSub_print_parse_partial`, over the
+larger class `selOKR s.lowerTbl n st` (decidable, on the AST; `selOKB_selOKR`): at every level a source may also be a
+regex measurement `/re/`, `rp./re/`, `db../re/`, `db.rp./re/` (`reMeasOKB`: no name, expressible database and retention
+policy, regex source of `RT.regexB`), and a `GROUP BY` dimension may also be a regex literal of that class
+(`dimOKR`; read by `parseRegex` in `parseDimension`, followed by `ScanIgnoreWhitespace; Unscan`).
+
+Partial — still excluded (all producible by the parser): regex sources containing a newline, NUL or CR, ending in a
+backslash or starting with `*` (the first three cannot be written back by `RegexLiteral.String()`; `/*` opens a
+comment), and the exclusions of `selectSub_print_parse_partial` other than regex sources / dimensions. -/
+theorem selectRegex_print_parse_partial (n fuel : Nat) (s : PState) (st : SelectStmt) (k : Str)
+    (hok : selOKR s.lowerTbl n st = true) (hk : Follow k selectStop) (hs : s.Before (selectTail st ++ k)) :
+    wp (runHandler (fuel + n + 3) .parseSelectStatement_targetNotRequired) s
+      (fun r s' => r = .select st ∧ RT.Stand s' k) (· = .fuel) := by
+  simp only [runHandler]
+  rw [wp_bind]
+  refine wp_mono (parseSelect_subR s.lowerTbl n fuel false st s k hok (fun h => by cases h) rfl hk hs) ?_ (fun _ h => h)
+  intro r s' ⟨hr, hs'⟩
+  rw [wp_pure, hr]
+  exact ⟨rfl, hs'⟩
+
+/-- The pieces are what `ExplainStatement.String()` writes, for a SELECT of the class `selOKR`. -/
+theorem explainRegex_print (tbl : List (Char × Char)) (n : Nat) (st : SelectStmt) (analyze verbose : Bool)
+    (h : selOKR tbl n st = true) :
+    (Statement.explain st analyze verbose).print = tx "EXPLAIN" ++ explainText analyze verbose st :=
+  explain_print_eqR tbl n st analyze verbose h
+
+/-- **Print → parse, EXPLAIN** over the class with regex sources and dimensions (`selOKR`); otherwise as
+`explain_print_parse_partial`. Partial: exclusions as in `selectRegex_print_parse_partial`. -/
+theorem explainRegex_print_parse_partial (n fuel : Nat) (s : PState) (st : SelectStmt) (analyze verbose : Bool) (k : Str)
+    (hok : selOKR s.lowerTbl n st = true) (hk : Follow k selectStop)
+    (hs : s.Before (explainText analyze verbose st ++ k)) :
+    wp (runHandler (fuel + n + 3) .parseExplainStatement) s
+      (fun r s' => r = .explain st analyze verbose ∧ RT.Stand s' k) (· = .fuel) :=
+  parseExplain_printR n fuel s st analyze verbose k hok hk hs
+
+/-- The pieces are what `CreateContinuousQueryStatement.String()` writes, for a SELECT of the class `selOKR`. -/
+theorem createContinuousQueryRegex_print (tbl : List (Char × Char)) (n : Nat) (name db : Str) (ev fo : Int)
+    (st : SelectStmt) (h : selOKR tbl n st = true) :
+    (Statement.createContinuousQuery name db st ev fo).print =
+      tx "CREATE CONTINUOUS QUERY" ++ cqText name db ev fo st :=
+  cq_print_eqR tbl n name db ev fo st h
+
+/-- **Print → parse, CREATE CONTINUOUS QUERY** over the class with regex sources and dimensions (`selOKR`); otherwise
+as `createContinuousQuery_print_parse_partial`. Partial: exclusions as in `selectRegex_print_parse_partial`. -/
+theorem createContinuousQueryRegex_print_parse_partial (n fuel : Nat) (s : PState) (name db : Str) (ev fo : Int)
+    (st : SelectStmt) (k : Str) (hex1 : Expressible name) (hex2 : Expressible db) (hev : LimOK ev) (hfo : LimOK fo)
+    (hok : selOKR s.lowerTbl n st = true) (htgt : st.target ≠ none) (hcq : cqOKB st ev fo = true) (hk : WordEnd k)
+    (hs : s.Before (cqText name db ev fo st ++ k)) :
+    wp (runHandler (fuel + n + 3) .parseCreateContinuousQueryStatement) s
+      (fun r s' => r = .createContinuousQuery name db st ev fo ∧ RT.Stand s' k) (· = .fuel) :=
+  parseCQ_printR n fuel s name db ev fo st k hex1 hex2 hev hfo hok htgt hcq hk hs
+
+/-- Non-vacuity: `SELECT mean(x) FROM /cpu.*/, "my db".rp./a\/b/, db../x/, (SELECT value AS x FROM rp./^m$/ GROUP BY
+/host/), m GROUP BY /^dc[0-9]/, region, /b\/c/ LIMIT 5`. -/
+def exRe1 : SelectStmt :=
+  wideSelect ⟨.varRef "value".toList .Unknown, ['x']⟩ [] none [.measurement (reM [] "rp".toList "^m$".toList)] none
+    [.regex "host".toList] .null .none [] 0 0 0 0 none
+def exRe0 : SelectStmt :=
+  wideSelect ⟨.call "mean".toList [.varRef ['x'] .Unknown], []⟩ [] none
+    [.measurement (reM [] [] "cpu.*".toList), .measurement (reM "my db".toList "rp".toList "a/b".toList),
+     .measurement (reM "db".toList [] ['x']), .subquery exRe1, qualSrc ([], [], ['m'])] none
+    [.regex "^dc[0-9]".toList, .varRef "region".toList .Unknown, .regex "b/c".toList] .null .none [] 5 0 0 0 none
+
+example : selectTail exRe0 = (" mean(x) FROM /cpu.*/, \"my db\".rp./a\\/b/, db../x/, (SELECT value AS x FROM rp./^m$/ " ++
+    "GROUP BY /host/), m GROUP BY /^dc[0-9]/, region, /b\\/c/ LIMIT 5").toList := by decide +kernel
+
+-- in the new class, not in the old one; a regex ending in a backslash or starting with `*` is outside
+example : selOKR [] 2 exRe0 = true ∧ selOKR [] 1 exRe0 = false ∧ selOKB [] 2 exRe0 = false ∧ selOKR [] 3 exSub0 = true ∧
+    selOKR [] 1 (wideSelect ⟨.varRef ['a'] .Unknown, []⟩ [] none [.measurement (reM [] [] ['a', '\\'])] none [] .null .none []
+      0 0 0 0 none) = false ∧
+    selOKR [] 1 (wideSelect ⟨.varRef ['a'] .Unknown, []⟩ [] none [qualSrc ([], [], ['m'])] none [.regex ['*']] .null .none []
+      0 0 0 0 none) = false := by decide +kernel
+
+section
+attribute [local irreducible] wp
+example : wp (runHandler 205 .parseSelectStatement_targetNotRequired) (PState.init (selectTail exRe0) [] [])
+    (fun st s' => st = .select exRe0 ∧ RT.Stand s' [eofRune]) (· = .fuel) :=
+  selectRegex_print_parse_partial 2 200 (PState.init (selectTail exRe0) [] []) exRe0 [eofRune] (by decide +kernel)
+    (Follow.eof _ (by decide)) (init_before (selectTail exRe0) (by decide +kernel))
+
+example : wp (runHandler 205 .parseExplainStatement) (PState.init (explainText false true exRe0) [] [])
+    (fun st s' => st = .explain exRe0 false true ∧ RT.Stand s' [eofRune]) (· = .fuel) :=
+  explainRegex_print_parse_partial 2 200 (PState.init (explainText false true exRe0) [] []) exRe0 false true [eofRune]
+    (by decide +kernel) (Follow.eof _ (by decide)) (init_before (explainText false true exRe0) (by decide +kernel))
+end
+
+-- the kernel runs the model parser on the printed text: the fuel suffices and the statement prints back the same
+example : (match (runHandler 205 .parseSelectStatement_targetNotRequired).run (PState.init (selectTail exRe0) [] []) with
+    | .ok (.select st, _) => st.print == exRe0.print
+    | _ => false) = true := by decide +kernel
+
 
 end InfluxQL.C02
